@@ -6,8 +6,8 @@ ALL = ["C%02d" % i for i in range(1, 19)]
 
 CLAIMED = {
  "C01": dict(cat="model_checking", design="5/C01",
-   technique="TLA+ spec (Xeh.tla compiler+VM vs Src.tla structural reference), TLC exhaustive enumeration of programs, replay of every behaviour on the real crate",
-   text="TLC enumerates every program of six control-flow fragment grammars up to a phrase budget, checks on the design that the back-patching compiler + VM agree with a structural token-walking reference, and exports one predicted behaviour per program; each is replayed on the crate built from /repo and must give the predicted stack, variables, output, error class / failure point, or still be running at the instruction limit. Exhaustive inside the budget, nothing outside it.",
+   technique="TLA+ spec (Xeh.tla compiler+VM vs Src.tla structural reference), TLC exhaustive enumeration of programs, replay of every behaviour on the real crate; seeded programs judged by TLC evaluating Src.tla (Trace_Source); compiled code skeleton compared with the design's (drift)",
+   text="TLC enumerates every program of eight fragment grammars (control flow, definitions, locals in loops, late binding) up to a phrase budget, checks on the design that the back-patching compiler + VM agree with a structural token-walking reference, and exports one predicted behaviour per program; each is replayed on the crate built from /repo and must give the predicted stack, variables, output, error class / failure point, or still be running at the instruction limit. Exhaustive inside the budget, nothing outside it.",
    note="Trusts TLC, the JSON export/replay plumbing and the harness's rendering of cells; the reference semantics (Src.tla) is the stated meaning of the source; integers stay below 2^30 in the model."),
  "C02": dict(cat="model_checking", design="5/C02",
    technique="TLA+ spec of the reverse log (Xeh.tla primitives, RNext), TLC over all Fwd/Back interleavings; recorded stepping traces of the real crate validated by TLC against Trace_ReverseObs",
@@ -30,12 +30,12 @@ CLAIMED = {
    text="TLC checks on the design, for every constant expression, position, prior state and submission style, that the program with the meta block equals the program with the block's values inlined (last result first), that only constants survive the block, that a failing block rejects the source without touching anything, and that compile leaves stack and existing variables unchanged. Every scenario is replayed on the real crate (twin + prediction + dictionary purge + compile purity); seeded expressions whose value is computed by the implementation's own eval are compared block-vs-inlined at seven positions and validated by the twin-run trace specification.",
    note="Inside another meta block the stack is shared and values are not reversed (pinned by the suite): only single-valued stack-insensitive blocks are judged there; expressions needing a variable are refused in meta mode by design and skipped."),
  "C04": dict(cat="model_checking", design="5/C04",
-   technique="TLA+ refinement BitstrStore.tla (buffers, reference counts, borrowed flag, bit ranges) => Bits.tla (plain sequences) checked by TLC over all reachable layouts; every explored transition replayed on xeh::bitstr::Bitstr; seeded long histories validated by TLC (Trace_Bits)",
+   technique="TLA+ refinement BitstrStore.tla (buffers, reference counts, borrowed flag, bit ranges) => Bits.tla (plain sequences) checked by TLC over all reachable layouts; every explored transition - from reachable layouts and from every small layout taken as an initial state - replayed on xeh::bitstr::Bitstr; seeded long histories validated by TLC (Trace_Bits)",
    text="TLC explores every layout reachable within the bounds (3 handles, 3 buffers, history depth 3-4, byte patterns with both kinds of stale bit) and checks that each implementation-shaped operation (detach with its unique-owner case, append fast and slow path, insert, invert, views) yields exactly the plain-sequence result and leaves the operands unchanged. Each of the explored transitions is one test on the real Bitstr: the pre-state layout (exact bytes, ownership, borrowed flag, ranges) is rebuilt through the public API, the operation applied and every live handle compared (bits, iter8, len, hex, bytes, ==). Seeded 30-operation histories on 8 handles are validated by a trace specification that conjoins each event with the abstract operator. A regression configuration shows the pinned append design is still rejected.",
    note="Exhaustive inside the stated constants only; positions of seek/substr are taken relative to start(); derived views are compared with reference functions of the predicted bits."),
  "C05": dict(cat="model_checking", design="5/C05",
-   technique="TLA+ codec laws (Bits.tla Encode/Decode as byte-order permutations of MSB-first bit patterns) checked by TLC for every width/order/pattern; replay at all bit offsets on the real crate; random values judged by TLC (Trace_Codec)",
-   text="TLC checks on the specification, for every width 1..128, both byte orders and a per-width pattern family (plus all values at small widths), that decoding inverts encoding, that big-endian is the MSB-first pattern, that byte-multiple little-endian is the byte reversal and that the short group travels last. Every case is replayed through Bitstr::from_int/to_uint/to_int/from_f*/to_f* at all 8 bit offsets with both stale-bit fillings and through the language words; random 128-bit values are packed/unpacked by the real crate and each event is judged by TLC evaluating the codec.",
+   technique="TLA+ codec laws (Bits.tla Encode/Decode as byte-order permutations of MSB-first bit patterns) checked by TLC for every width/order/pattern; replay at 24 bit offsets (all alignments, fields starting deep in the buffer) on the real crate; random values judged by TLC (Trace_Codec)",
+   text="TLC checks on the specification, for every width 1..128, both byte orders and a per-width pattern family (plus all values at small widths), that decoding inverts encoding, that big-endian is the MSB-first pattern, that byte-multiple little-endian is the byte reversal and that the short group travels last. Every case is replayed through Bitstr::from_int/to_uint/to_int/from_f*/to_f* at 24 bit offsets with both stale-bit fillings and through the language words; random 128-bit values are packed/unpacked by the real crate and each event is judged by TLC evaluating the codec.",
    note="Numbers are bit patterns in the specification (no big integers); float NaN payloads through the language-level f32 path are not judged bit-exactly."),
  "C06": dict(cat="model_checking", design="5/C06",
    technique="TLA+ spec of the parsing cursor (Cursor.tla: input with origin, absolute offset, LIFO stash, byte order, stack) with C06 as invariants/action properties checked by TLC over all word sequences; every maximal path replayed through eval; seeded sequences validated by TLC (Trace_Cursor)",
@@ -44,7 +44,7 @@ CLAIMED = {
  "C07": dict(cat="model_checking", design="5/C07",
    technique="TLA+ theorem Inverse on Record.tla (Pack / ParseOk over the Bits.tla codec) checked by TLC for all field lists up to a length; replay through the construction and read words incl. every emit split; seeded 20-field records judged by TLC (Trace_Pack)",
    text="TLC checks on the specification that for every field list (111 field shapes: widths 1..128 incl. 127/128, signed and unsigned, both byte orders, raw bits, strings, byte lists; so that fields start at every bit alignment) the packed length is the sum of the widths and parsing field by field returns the values and ends exactly at the end. Each exported list is packed on the real interpreter with the construction words, concatenated with >bitstr and with every split across emit calls under output interception, then parsed back with the matching read words: packed bits, parsed values, remain, output and output-length must be the specification's. Seeded records of up to 20 random fields are validated by TLC evaluating Pack/ParseOk on each recorded event.",
-   note="Float fields are covered by C05; 128-bit unsigned fields cannot be cells and are excluded (DESIGN 5.19)."),
+   note="Float fields travel as their IEEE bit pattern (exactly representable values); 128-bit unsigned fields cannot be cells and are excluded (DESIGN 5.19)."),
  "C09": dict(cat="model_checking", design="5/C09",
    technique="TLA+ bit-level arithmetic (Arith.tla) proved by TLC exhaustion at small widths against integer arithmetic, then used at W=128 as the oracle; exact small model of doubles; type-dispatch table; replay through eval; random i128 pairs judged by TLC (Trace_Arith)",
    text="TLC proves by exhaustion at widths 4-6 (all operand pairs, all shift counts) that the W-bit two's-complement operators of Arith.tla (add, sub, mul with wide-product overflow test, truncating div/rem, neg, abs, min/max, comparisons, bitwise, shifts, popcount) agree with mathematical integer arithmetic, wrapped when not representable. The same operators at W=128 give the expected result of every word on a boundary family; a small exact model of doubles (zero, infinities, NaN, m*2^e) gives the IEEE results that are exactly representable; a dispatch table says which operand-type combinations are type errors and that the error must report one of the actual operands. Every case is replayed through eval; random boundary-biased i128 pairs evaluated by the real crate are judged by TLC at 128 bits.",
@@ -54,7 +54,7 @@ CLAIMED = {
    text="TLC explores every history of map insert/remove/get up to a depth over a key universe that crosses all cell types (and over int-only and string-only universes), keeping every intermediate version, with the invariant that a map holds one value per key under the language's equality; plus vector and string words at every index class (negative, out of range, beyond the machine range). Every history is replayed through eval: the predicted stack contains every version of the map and every get result, so both wrong results and a changed old version are mismatches. One recorded known finding (keys that Ord for Cell cannot order collide) is matched by signature; histories whose keys are all ints or all strings must match exactly.",
    note="Maps are compared as sets of pairs; sort is judged on integers only; NaN is never a key."),
  "C13": dict(cat="model_checking", design="5/C13",
-   technique="TLA+ dictionary table (Words.tla) from which TLC generates the matrix word x tagged positions x tag map x depth; twin runs on the real crate validated by TLC against the observational trace specification Trace_TagObs",
+   technique="TLA+ dictionary table (Words.tla) from which TLC generates the matrix word x tagged positions x tag map x depth; twin runs on the real crate validated by TLC against the observational trace specification Trace_TagObs; tagged values sent through carrier phrases must arrive with the same tags",
    text="TLC generates from the dictionary table every combination of word, non-empty subset of argument positions to tag, tag map (empty, one pair, the formatting tag, a tag whose value is itself tagged) and depth (the argument itself or an element inside a container argument). Each case is executed as a twin on the real crate; TLC validates the recorded pairs against a trace specification stating that the observations (results with every tag stripped at every depth, error class, output, variables) are equal and that results of computing words carry no tags.",
    note="One sample value per argument type; about 130 word/type rows are tabulated (the tag words and, for the formatting tag, the printing words are excluded by the property itself)."),
  "C16": dict(cat="model_checking", design="5/C16",
@@ -62,15 +62,15 @@ CLAIMED = {
    text="TLC enumerates every text over 22 character classes (whitespace kinds, digits, hex letters, radix markers, signs, separators, the three quote characters, backslash, bar, parentheses, letters, a multi-byte class) up to a length and checks on the design that every token consumes at least one character, tokens tile the text and lexing stops within len+1 tokens. Each class text is concretised with several real characters per class (1-4 byte UTF-8) and lexed by the real lexer: kinds, spans, decoded strings, bit-string bits and integer values must be the predicted ones. TLC also enumerates values (all bit-strings up to a length, integers, vectors/maps of those) with their literal text; the real printer must produce it and reading it back must give an equal value. Seeded arbitrary UTF-8 texts are lexed to the end and the recorded spans validated by a trace specification (termination, progress, tiling).",
    note="Real literals are compared with str::parse::<f64> of the same text (assumption); integer values in the class model are small."),
  "C17": dict(cat="model_checking", design="5/C17",
-   technique="TLA+: ground-truth failing token from the structural reference (Src.tla) vs the token the design's debug map blames (Xeh.tla), checked by TLC on every failing generated program; location function enumerated by TLC; replay with varied layouts on the real crate",
+   technique="TLA+: ground-truth failing token from the structural reference (Src.tla) vs the token the design's debug map blames (Xeh.tla), checked by TLC on every failing generated program; location function enumerated by TLC; MC_C17D states the ground truth for build-time failures (meta blocks, immediate words) and nested sources (~), include); replay with varied layouts on the real crate",
    text="For every generated failing program TLC takes the position at which the structural reference stops as the ground truth and checks on the design that the debug map (kept index-aligned with the bytecode through every emit and back-patch) blames that token; each program is then laid out with varied line ends, tabs, multi-byte text and comments, evaluated after 0-2 earlier sources, and last_err_location() must name the right source, quote the failing token's exact byte range, its true line and column and its line. The line/column/quoted-line function is specified separately, enumerated by TLC over all prefixes of LF/CR/tab/space/ASCII/2-3-4-byte characters, and replayed on lex::token_location in isolation (the harness's own reference function is validated against the same enumeration).",
-   note="Either token of a two-token construct may be blamed; end-of-input, meta-block, injected and included-text errors are not enumerated yet."),
+   note="Either token of a two-token construct may be blamed; errors reported at the end of input are not judged."),
  "C18": dict(cat="exploration", design="5/C18",
    technique="TLA+ input matrix (MC_C18.tla) generated by TLC; events recorded from the real crate validated by TLC against the algebraic trace specification Trace_TextCodec (learned bytes<->text map per codec)",
    text="TLC generates the input matrix (byte strings of every length 0..12, at every bit alignment inside a parent bit-string so that the copying path is taken, and in every argument form; inputs that >bitstr rejects; texts containing never-valid characters) and the real interpreter runs the four encoders/decoders on it; TLC validates the recorded events against a trace specification that learns the bytes<->text map per codec and requires determinism, injectivity, decode(encode(b)) = b, nil for never-valid characters, never a decode error, and rejection by the encoder of exactly what >bitstr rejects or what is not whole bytes. A corrupted decode result is shown to be rejected on every run.",
    note="Exploration level: the specification is a generator and an algebraic oracle; it does not model the third-party encoders, and the alphabets are deliberately not fixed."),
  "C03": dict(cat="model_checking", design="5/C03",
-   technique="TLA+ value semantics of interpreter instances: TLC enumerates all clone/submit/step histories per theme (MC_C03); histories executed on real State::clone values and validated by TLC against the observational trace specification Trace_CloneObs; REPL /snapshot-/rollback scripts through the real binary",
+   technique="TLA+ value semantics of interpreter instances: TLC enumerates all clone/submit/step histories per theme, from the empty interpreter and after a prelude that created the storage to share (MC_C03); histories executed on real State::clone values and validated by TLC against the observational trace specification Trace_CloneObs; REPL /snapshot-/rollback scripts through the real binary",
    text="On the specification level an interpreter is a value: what an instance renders is a function of the calls applied to it since boot, a clone inheriting its source's sequence. TLC enumerates every history (up to three instances, clone of clone, length 3-4) over themed alphabets built to share storage and then mutate it - slices of a variable's bit-string, variables/vectors/maps, definitions with late binding that patches code in place, the parsing cursor and intercepted output, the 2D canvas host object, stepping and reverse stepping. Each history is executed on real State values and the canonical dump of every live instance after every event is validated by TLC against the trace specification, which implies: a clone equals its source, an event on one instance changes no other, and equal call sequences give equal dumps, results and output. Seeded long histories over the whole dictionary and REPL /snapshot-/rollback scripts through the real binary complete it.",
    note="The dump renders shared structure by value (bit-strings as bits, the canvas through the plugin's public accessors); non-deterministic and external words are excluded by the property itself."),
  "C08": dict(cat="exploration", design="5/C08",
